@@ -7,10 +7,10 @@
     step-level [*_rseq], and the step-level round-trip theorems apply to the real pipeline. *)
 From Coq Require Import ZArith List Bool Lia ZifyBool Reals.
 From NS Require Import Base.NoteSeq Base.FloatBridge Gen.G07 Model.Quantize Model.FqCommon Model.FqMelody
-  Model.FqDrums Model.FqChords Model.FqPianoroll Model.FqPerformance
+  Model.FqDrums Model.FqChords Model.FqPianoroll Model.FqPerformance Model.FqSpec
   Model.RenderCommon Model.RenderMelody Model.RenderDrums Model.RenderChords Model.RenderPianoroll
   Model.RenderPerformance Model.RenderFloat Proofs.FqCommon Proofs.RenderFloat Proofs.RenderMelody Proofs.RenderDrums
-  Proofs.RenderChords Proofs.RenderPianoroll Proofs.RenderPerformance Proofs.RenderPerfCanon.
+  Proofs.RenderChords Proofs.RenderPianoroll Proofs.RenderPerformance Proofs.RenderPerfCanon Proofs.RenderPerfWide.
 Import ListNotations.
 Local Open Scope Z_scope.
 
@@ -226,26 +226,26 @@ Theorem roundtrip_perf_float : forall sps p dv i pr drum es,
   1 <= sps <= 1000 -> 0 <= fp_start p ->
   1 <= fp_max_shift p -> (fp_bins p = 0 \/ 1 <= fp_bins p) ->
   (match fp_instrument p with None => True | Some j => j = i end) ->
-  canonical_perf (fp_bins p) (fp_max_shift p) es = true ->
+  canonical_perf_w (fp_bins p) (fp_max_shift p) es = true ->
   steps_in_range (fp_start p) (pf_rnotes p dv i pr drum es) = true ->
   pf_from_quantized p (map (requant_note (rt_abs sps) (fp_start p)) (pf_rnotes p dv i pr drum es)) = es.
 Proof.
   intros sps p dv i pr drum es S H0 Hm Hb Hi Hc Hr.
   rewrite (requant_notes_fixed _ _ _ (rt_abs_exact sps S) H0 Hr).
-  now apply roundtrip_steps_perf.
+  now apply roundtrip_steps_perf_w.
 Qed.
 
 Theorem roundtrip_metric_float : forall qpm spq p dv i pr drum es,
   fin qpm -> (10 <= R_of qpm <= 480)%R -> 1 <= spq <= 96 -> 0 <= fp_start p ->
   1 <= fp_max_shift p -> (fp_bins p = 0 \/ 1 <= fp_bins p) ->
   (match fp_instrument p with None => True | Some j => j = i end) ->
-  canonical_perf (fp_bins p) (fp_max_shift p) es = true ->
+  canonical_perf_w (fp_bins p) (fp_max_shift p) es = true ->
   steps_in_range (fp_start p) (pf_rnotes p dv i pr drum es) = true ->
   pf_from_quantized p (map (requant_note (rt_metric qpm spq) (fp_start p)) (pf_rnotes p dv i pr drum es)) = es.
 Proof.
   intros qpm spq p dv i pr drum es F Q S H0 Hm Hb Hi Hc Hr.
   rewrite (requant_notes_fixed _ _ _ (rt_metric_exact qpm spq F Q S) H0 Hr).
-  now apply roundtrip_steps_perf.
+  now apply roundtrip_steps_perf_w.
 Qed.
 
 Theorem roundtrip_noteperf_float : forall sps p md i pr drum evs,
@@ -258,4 +258,27 @@ Proof.
   intros sps p md i pr drum evs S H0 Hi Hc Hr.
   rewrite (requant_notes_fixed _ _ _ (rt_abs_exact sps S) H0 Hr).
   now apply roundtrip_steps_noteperf.
+Qed.
+
+(** * the wide Performance theorems with [perf_input_ok_w] spelled out (for Props/C06.v) *)
+Theorem extraction_canonical_perf_w_flat : forall p ns,
+  1 <= fp_max_shift p -> (fp_bins p = 0 \/ 1 <= fp_bins p) ->
+  Forall (fun n => n_qstart n < n_qend n /\ MIN_MIDI_VELOCITY <= n_vel n) ns ->
+  no_nested_same_pitch (pf_selected p ns) = true -> times_follow_steps (pf_selected p ns) ->
+  canonical_perf_w (fp_bins p) (fp_max_shift p) (pf_from_quantized p ns) = true.
+Proof.
+  intros p ns H1 H2 H3 H4 H5. apply extraction_canonical_perf_w.
+  exact (conj H1 (conj H2 (conj H3 (conj H4 H5)))).
+Qed.
+
+Theorem roundtrip_extracted_perf_w_flat : forall p dv i pr drum ns,
+  1 <= fp_max_shift p -> (fp_bins p = 0 \/ 1 <= fp_bins p) ->
+  Forall (fun n => n_qstart n < n_qend n /\ MIN_MIDI_VELOCITY <= n_vel n) ns ->
+  no_nested_same_pitch (pf_selected p ns) = true -> times_follow_steps (pf_selected p ns) ->
+  (match fp_instrument p with None => True | Some j => j = i end) ->
+  let es := pf_from_quantized p ns in
+  pf_from_quantized p (pf_rnotes p dv i pr drum es) = es.
+Proof.
+  intros p dv i pr drum ns H1 H2 H3 H4 H5 H6. apply roundtrip_extracted_perf_w; [|exact H6].
+  exact (conj H1 (conj H2 (conj H3 (conj H4 H5)))).
 Qed.
